@@ -106,6 +106,41 @@ def run(F, R, tier):
                 R.ob("ip-advance", n, sum(incs) == 0, "absolute transfer; no relative advance expected, got %s" % incs,
                      "src/vm/interpreter.rs:%s" % a["line"])
 
+    # operands are widened before the VM computes with them: every value the encoder accepts (≤ 255 / ≤ 65535) must be
+    # usable, so `num_args + 1`, `operand * 2`, .. in u8/u16 arithmetic (wraps or panics at the top of the range) is a
+    # reader that does not honour the width the encoder wrote.  Decided on MIR: no arithmetic BinaryOp on u8/u16 in the
+    # functions of src/vm/interpreter.rs (operand decoding and everything it hands the operand to).
+    from .lib import mir as M
+    n_fn = n_arith = 0
+    for p, g in sorted(F.fns.items()):
+        if not p.startswith("vm::interpreter::") or not g.get("mir"):
+            continue
+        n_fn += 1
+        B = M.Body(g)
+        for bi, b in enumerate(B.blocks):
+            if b.get("cleanup"):
+                continue
+            for st in b["stmts"]:
+                rv = st.get("rv") or {}
+                if st.get("k") != "assign" or rv.get("k") != "bin":
+                    continue
+                op = rv["op"].replace("WithOverflow", "").replace("Unchecked", "")
+                if op not in ("Add", "Sub", "Mul", "Shl"):
+                    continue
+                n_arith += 1
+                tys = []
+                for side in ("a", "b"):
+                    o = rv[side]
+                    tys.append(o.get("ty") if o.get("k") == "const" else B.local_ty(o["pl"]["l"]) if not o["pl"]["p"] else None)
+                if op == "Shl":
+                    tys = tys[:1]
+                narrow = [t for t in tys if t in ("u8", "u16", "i8", "i16")]
+                if narrow:
+                    R.ob("operand-arith-width", "%s: %s in %s" % (p, op, narrow[0]), False,
+                         "arithmetic in a type as narrow as an encoded operand: the top of the encodable range overflows", F.loc(g, st.get("line")))
+    R.ob("operand-arith-width", "no u8/u16 arithmetic in the VM (operands are widened to usize first)", True,
+         "%d arithmetic operations in %d functions of vm::interpreter inspected" % (n_arith, n_fn), nontrivial=True)
+    R.floor("VM arithmetic sites inspected", n_arith, 40)
     # make / read_operands: width → codec
     mk = F.fn("code::definitions::make")
     ro = F.fn("code::definitions::read_operands")
